@@ -11,7 +11,7 @@ def make(rd, tier, seed, ev):
     pick = gen_problems.sample_shapes(shapes, 120 if tier == 'quick' else 1500, seed)
     named = [(gen_problems.shape_name(s), gen_problems.render_timeline(s)) for s in pick]
     named += [(n, t) for n, t, ok in gen_problems.causal_family()] + [(n, t) for n, t, ok in gen_problems.temporal_family()]
-    gen = plancheck.write_problems(rd, named)
+    gen = plancheck.write_problems(rd, named) + plancheck.feature_problems(rd, ['timeline', 'inheritance', 'tp', 'causal'], seed, tier)[0]
     repo = plancheck.repo_problems()
     if tier == 'quick':
         repo = [p for p in repo if not p[0].startswith(('GOAC', 'Matera'))] + [p for p in repo if p[0] in ('GOAC_2Pic_2Wind', 'GOAC_4Pic_3Wind', 'Matera_05', 'Matera_15')]
@@ -21,7 +21,7 @@ def make(rd, tier, seed, ev):
 
 def run(tier, seed):
     return plancheck.run_plan(PROP, tier, seed,
-        rule='all repository examples plus generated timeline, causal and temporal families, solved in several build '
+        rule='all repository examples plus generated timeline, causal and temporal families and the feature-cross families of tools/gen_features.py (strict / non-strict temporal relations between atoms of one timeline, constant / variable / time-dependent capacities, predicate inheritance chains, time-point variables with windows and separations at top level and inside rules, mutual recursion with unification, shuffled statement order, incremental reading with a solve in between), solved in several build '
              'configurations (h_max / h_add x CHECK_INCONSISTENCIES off / on x Debug / RelWithDebInfo); hooks record every clause '
              'given to the network, every guarded fact, every reified / arithmetic / difference literal definition and every '
              'RIDDLE operator translation; on each reported solution PlanTrace checks that no clause is falsified or left unit, '
